@@ -38,7 +38,9 @@ def run(tier, seed, replay):
     def classify(fl, source):
         fl["source"] = source
         fl["clause"] = fl["clauses"][0]
-        if fl["clause"] == "chunk_size":
+        if fl["clause"] == "aborted_on_worker_failure":
+            run.observation("aborted_on_worker_failure", {"n": fl.get("n"), "ev": fl.get("ev")})
+        elif fl["clause"] == "chunk_size":
             # C14 asks that buffered consumers see every item once; the size of the chunks is not prescribed: an observation
             run.observation("chunk_size", {"n": fl.get("n"), "ev": fl.get("ev")})
         else:
